@@ -113,6 +113,72 @@ static void do_csr()
     printf("\nend\n");
 }
 
+
+// csrmb (second wave): updateCSR on ONE object with several bunches, after an optional history of other calls.
+//   <setup> <cutoff> <npre>  npre x ( W|P|C  profiles(nb*n) )
+// prints the nb spectrum rows and nb power entries of the object, then - with PhaseSpace reset to ONE bunch and
+// fresh single-bunch objects of the same transform length and impedance - for every bunch b the spectrum/power of
+// that bunch alone (single_spectrum<b>, single_power<b>: must be bit-identical to row b) and its wake
+// (padded<b>, wakepad<b>: Parseval per bunch).
+static void do_csrmb()
+{
+    std::vector<float> prof;
+    Setup S = read_setup(prof);
+    float cutoff = nextf();
+    long npre = nextl();
+    print_inputs(S);
+    for (long k = 0; k < npre; k++) {
+        char kind = next()[0];
+        std::vector<float> q((size_t)S.nb * S.n);
+        for (auto& v : q) v = nextf();
+        set_profiles(S, q);
+        switch (kind) {
+        case 'W': S.f->wakePotential(); break;
+        case 'P': S.f->padBunchProfiles(); break;
+        default:  S.f->updateCSR(0); break;
+        }
+    }
+    set_profiles(S, prof);
+    S.f->updateCSR(cutoff);
+    printf("renorm"); pf(S.f->_formfactorrenorm); printf("\n");
+    printf("df"); pf(S.f->getFreqRuler()->delta()); pf(S.f->getFreqRuler()->scale("Hertz")); printf("\n");
+    printf("freq");
+    for (unsigned i = 0; i < S.N; i++) pf(S.f->getFreqRuler()->at(i));
+    printf("\nspectrum");
+    for (size_t i = 0; i < (size_t)S.nb * S.N; i++) pf(S.f->getCSRSpectrum()[i]);
+    printf("\npower");
+    for (unsigned b = 0; b < S.nb; b++) pf(S.f->getCSRPower()[b]);
+    printf("\n");
+    // single-bunch references
+    unsigned nb = S.nb;
+    S.f.reset(); S.ps.reset();
+    PhaseSpace::resetSize(S.n, 1);
+    std::vector<integral_t> filling(1, 1.0f);
+    std::vector<uint32_t> b0(1, 0);
+    for (unsigned b = 0; b < nb; b++) {
+        auto ps = std::make_shared<PhaseSpace>(S.qmin, S.qmax, S.qscale, S.pmin, S.pmax, S.pscale,
+                                               nullptr, 1.0, 1.0, filling, 1.0);
+        boost::multi_array<projection_t, 1> a(boost::extents[S.n]);
+        for (unsigned x = 0; x < S.n; x++) a[x] = prof[b * S.n + x];
+        ps->setProjection(0, 0, a);
+        auto f = std::make_shared<ElectricField>(ps, S.z, b0, S.n, nullptr, S.frev,
+                                                 (meshaxis_t)S.revpart, S.Ib, S.E0, S.sd, S.dt);
+        f->updateCSR(cutoff);
+        printf("single_spectrum%u", b);
+        for (unsigned i = 0; i < S.N; i++) pf(f->getCSRSpectrum()[i]);
+        printf("\nsingle_power%u", b); pf(f->getCSRPower()[0]);
+        auto g = std::make_shared<ElectricField>(ps, S.z, b0, S.n, nullptr, S.frev,
+                                                 (meshaxis_t)S.revpart, S.Ib, S.E0, S.sd, S.dt);
+        g->wakePotential();
+        printf("\nwakepad%u", b);
+        for (unsigned i = 0; i < S.N; i++) pf(g->getPaddedWakePotential()[i]);
+        printf("\npadded%u", b);
+        for (unsigned i = 0; i < S.N; i++) pf(g->getPaddedBunchProfiles()[i]);
+        printf("\n");
+    }
+    printf("end\n");
+}
+
 // pow2 <id> <count> v...   -> upper_power_of_two(v)
 static void do_pow2()
 {
@@ -129,5 +195,5 @@ static void do_pow2()
 int main(int argc, char** argv)
 {
     Display::silent_mode = true;   // 'Created some wisdom' messages go to stdout otherwise
-    return run_main(argc, argv, {{"wake", do_wake}, {"csr", do_csr}, {"pow2", do_pow2}});
+    return run_main(argc, argv, {{"wake", do_wake}, {"csr", do_csr}, {"csrmb", do_csrmb}, {"pow2", do_pow2}});
 }
